@@ -5269,9 +5269,16 @@ class Arc(Curve):
 
             return self._points_numpy(np.array(positions))
         except ImportError:
-            if self.start == self.end and self.sweep == 0:
-                # This is equivalent of omitting the segment
-                return [self.start] * len(positions)
+            if self.sweep == 0:
+                # Coincident endpoints omit the segment, a zero radius is the straight line.
+                return [
+                    self.start
+                    if pos == 0
+                    else self.end
+                    if pos == 1
+                    else Point.towards(self.start, self.end, pos)
+                    for pos in positions
+                ]
 
             start_t = self.get_start_t()
             return [
@@ -5293,8 +5300,12 @@ class Arc(Curve):
 
         xy = np.empty((len(positions), 2), dtype=float)
 
-        if self.start == self.end and self.sweep == 0:
-            xy[:, 0], xy[:, 1] = self.start
+        if self.sweep == 0:
+            # Coincident endpoints omit the segment, a zero radius is the straight line.
+            xy[:, 0] = self.start.x + positions * (self.end.x - self.start.x)
+            xy[:, 1] = self.start.y + positions * (self.end.y - self.start.y)
+            xy[positions == 0, :] = list(self.start)
+            xy[positions == 1, :] = list(self.end)
         else:
             t = self.get_start_t() + self.sweep * positions
 
@@ -5353,10 +5364,10 @@ class Arc(Curve):
         approximation, as for cubic Bézier curves.
         """
         if self.sweep == 0:
-            return 0
-        if self.start == self.end and self.sweep == 0:
-            # This is equivalent of omitting the segment
-            return 0
+            # Coincident endpoints omit the segment, a zero radius is the straight line.
+            if self.start is None or self.end is None:
+                return 0
+            return Point.distance(self.start, self.end)
         a = self.rx
         b = self.ry
         d = abs(a - b)
@@ -5693,7 +5704,12 @@ class Arc(Curve):
         Code from: https://github.com/mathandy/svgpathtools
         """
         if self.sweep == 0:
-            return self.start.x, self.start.y, self.end.x, self.end.y
+            return (
+                min(self.start.x, self.end.x),
+                min(self.start.y, self.end.y),
+                max(self.start.x, self.end.x),
+                max(self.start.y, self.end.y),
+            )
         phi = self.get_rotation().as_radians
         if cos(phi) == 0:
             atan_x = tau / 4.0
